@@ -1,6 +1,546 @@
-//! C12 harnesses (see /verif/kani/README.md for conventions)
+//! C12: NonZero / Odd wrappers can never hold an invalid value.
+//!
+//! One harness per producer (trivially similar ones grouped): the produced wrapper satisfies its invariant
+//! (!= 0 resp. odd) *and* equals the input decoded in the stated byte order, or the producer fails in the
+//! documented way (none / Err / panic). Widths: Limb, U64, U128, I64/I128, BoxedUint of 1 and 2 limbs.
+//! The producer list and what is not covered is in meta/c12.json.
 use crate::*;
+use crate::util::*;
+use crate::c19::{SymRng, SymTryRng};
 use crypto_bigint::*;
+use crypto_bigint::modular::{ConstMontyParams, MontyParams, BoxedMontyParams};
+use crypto_bigint::subtle::{Choice, ConditionallySelectable, CtOption};
+use core::num::{NonZeroU8, NonZeroU16, NonZeroU32, NonZeroU64, NonZeroU128};
+use hybrid_array::Array;
+use hybrid_array::typenum;
+
+fn le_value(b: &[u8]) -> u128 {
+    let mut v: u128 = 0;
+    let mut i = b.len();
+    while i > 0 { i -= 1; v = (v << 8) | b[i] as u128; }
+    v
+}
+fn boxed_u128(b: &BoxedUint) -> u128 {
+    let w = b.as_words();
+    let mut v: u128 = 0;
+    if w.len() > 0 { v |= w[0] as u128; }
+    if w.len() > 1 { v |= (w[1] as u128) << 64; }
+    v
+}
+fn i64_of(x: &I64) -> i64 { x.as_words()[0] as i64 }
+fn i128_of(x: &I128) -> i128 { let w = x.as_words(); (w[0] as u128 | ((w[1] as u128) << 64)) as i128 }
+fn is_hex(c: u8) -> bool { (c >= b'0' && c <= b'9') || (c >= b'a' && c <= b'f') || (c >= b'A' && c <= b'F') }
+fn nib(c: u8) -> u8 { if c <= b'9' { c - b'0' } else if c >= b'a' { c - b'a' + 10 } else { c - b'A' + 10 } }
+/// byte k of a hex string = chars 2k, 2k+1
+fn hex_bytes<const N: usize, const H: usize>(h: &[u8; H]) -> [u8; N] {
+    let mut out = [0u8; N];
+    let mut k = 0;
+    while k < N { out[k] = (nib(h[2 * k]) << 4) | nib(h[2 * k + 1]); k += 1; }
+    out
+}
+fn all_hex<const H: usize>(h: &[u8; H]) -> bool {
+    let mut ok = true;
+    let mut k = 0;
+    while k < H { ok &= is_hex(h[k]); k += 1; }
+    ok
+}
+
+impl_modulus!(C12Mod64, U64, "ffffffff00000001");
+impl_modulus!(C12Mod128, U128, "0000000000000003fffffffffffffff1");
 
 harnesses! {
+    // ================================================================== NonZero
+    /// NonZero::new / Limb::to_nz / Uint::to_nz (+ ConstCtOption -> CtOption / Option, expect, unwrap) at Limb and U64:
+    /// some iff x != 0, and then the wrapped value is x.
+    fn c12_nz_new_limb_u64(s) {
+        let x = s.u64();
+        let a: Option<NonZero<Limb>> = NonZero::new(Limb(x)).into();
+        let b: Option<NonZero<U64>> = NonZero::new(mk64(x)).into();
+        let c = Limb(x).to_nz();
+        let d = mk64(x).to_nz();
+        assert!(a.is_some() == (x != 0) && b.is_some() == (x != 0));
+        assert!(bool::from(c.is_some()) == (x != 0) && bool::from(d.is_some()) == (x != 0));
+        assert!(bool::from(c.is_none()) == (x == 0));
+        let d_ct: CtOption<NonZero<U64>> = d.clone().into();
+        let d_opt: Option<NonZero<U64>> = d.clone().into();
+        assert!(bool::from(d_ct.is_some()) == (x != 0) && d_opt.is_some() == (x != 0));
+        if x != 0 {
+            assert!(a.unwrap().get().0 == x && a.unwrap().as_ref().0 == x);
+            assert!(u64_of(&b.unwrap().get()) == x);
+            assert!(c.clone().expect("nz").get().0 == x && c.unwrap().get().0 == x);
+            assert!(u64_of(&d.clone().expect("nz").get()) == x && u64_of(&d.unwrap()) == x);
+            assert!(u64_of(&d_opt.unwrap()) == x);
+        }
+        cov!(s, x == 0);
+        cov!(s, x == 1 << 63);
+    }
+
+    /// ... at U128 (value living only in the high limb, only in the low limb).
+    fn c12_nz_new_u128(s) {
+        let x = s.u128();
+        let b: Option<NonZero<U128>> = NonZero::new(mk128(x)).into();
+        let d = mk128(x).to_nz();
+        assert!(b.is_some() == (x != 0));
+        assert!(bool::from(d.is_some()) == (x != 0));
+        if x != 0 {
+            assert!(u128_of(&b.unwrap().get()) == x);
+            assert!(u128_of(&d.expect("nz").get()) == x);
+        }
+        cov!(s, x == 0);
+        cov!(s, x != 0 && x as u64 == 0);
+        cov!(s, x != 0 && (x >> 64) == 0);
+    }
+
+    /// ConstCtOption<NonZero<_>>::expect / unwrap on a none (zero input) panic.
+    #[kani::should_panic]
+    fn c12_nz_to_nz_expect_zero_panics(s) {
+        let x = s.u64();
+        s.assume(x == 0);
+        let _ = mk64(x).to_nz().expect("documented panic");
+    }
+
+    /// NonZero::new(Int) / Int::to_nz / Int::to_odd at I64 and I128: some iff != 0 (resp. odd), value preserved
+    /// (negative values, MIN, -1 included).
+    fn c12_int_to_nz_to_odd(s) {
+        let x = s.i64();
+        let y = s.i128();
+        let a = I64::from_i64(x).to_nz();
+        let b = I128::from_i128(y).to_nz();
+        let c: Option<NonZero<I128>> = NonZero::new(I128::from_i128(y)).into();
+        let o = I64::from_i64(x).to_odd();
+        let p = I128::from_i128(y).to_odd();
+        assert!(bool::from(a.is_some()) == (x != 0));
+        assert!(bool::from(b.is_some()) == (y != 0) && c.is_some() == (y != 0));
+        assert!(bool::from(o.is_some()) == (x & 1 == 1));
+        assert!(bool::from(p.is_some()) == (y & 1 == 1));
+        if x != 0 { assert!(i64_of(&a.unwrap().get()) == x); }
+        if y != 0 { assert!(i128_of(&b.unwrap().get()) == y && i128_of(&c.unwrap().get()) == y); }
+        if x & 1 == 1 { assert!(i64_of(&o.unwrap().get()) == x); }
+        if y & 1 == 1 { assert!(i128_of(&p.unwrap().get()) == y); }
+        cov!(s, x == i64::MIN);
+        cov!(s, y == -1);
+        cov!(s, y == i128::MIN);
+        cov!(s, y < 0 && y & 1 == 1);
+    }
+
+    /// NonZero::new(BoxedUint) with 1 and 2 limbs: some iff the value is non-zero; value and precision preserved.
+    #[kani::unwind(4)]
+    fn c12_nz_new_boxed(s) {
+        let w: [u64; 2] = s.words();
+        let a: Option<NonZero<BoxedUint>> = NonZero::new(BoxedUint::from_words([w[0]])).into();
+        let b: Option<NonZero<BoxedUint>> = NonZero::new(BoxedUint::from_words([w[0], w[1]])).into();
+        assert!(a.is_some() == (w[0] != 0));
+        assert!(b.is_some() == (w[0] != 0 || w[1] != 0));
+        if let Some(a) = a { assert!(a.nlimbs() == 1 && a.as_words()[0] == w[0]); }
+        if let Some(b) = b { assert!(b.nlimbs() == 2 && b.as_words()[0] == w[0] && b.as_words()[1] == w[1]); }
+        cov!(s, w[0] == 0 && w[1] != 0);
+        cov!(s, w[0] == 0 && w[1] == 0);
+    }
+
+    /// NonZero::<Limb|U64|U128>::new_unwrap on non-zero input returns the input.
+    fn c12_nz_new_unwrap_ok(s) {
+        let x = s.u64();
+        let y = s.u128();
+        s.assume(x != 0 && y != 0);
+        assert!(NonZero::<Limb>::new_unwrap(Limb(x)).get().0 == x);
+        assert!(u64_of(&NonZero::<U64>::new_unwrap(mk64(x)).get()) == x);
+        assert!(u128_of(&NonZero::<U128>::new_unwrap(mk128(y)).get()) == y);
+        cov!(s, y as u64 == 0);
+    }
+    /// new_unwrap(0) panics (Limb).
+    #[kani::should_panic]
+    fn c12_nz_new_unwrap_zero_panics_limb(s) {
+        let x = s.u64();
+        s.assume(x == 0);
+        let _ = NonZero::<Limb>::new_unwrap(Limb(x));
+    }
+    /// new_unwrap(0) panics (U128).
+    #[kani::should_panic]
+    fn c12_nz_new_unwrap_zero_panics_u128(s) {
+        let x = s.u128();
+        s.assume(x == 0);
+        let _ = NonZero::<U128>::new_unwrap(mk128(x));
+    }
+
+    /// from_u8/u16/u32/u64/u128 and the From<core::num::NonZero*> impls for NonZero<Limb>, NonZero<U64>, NonZero<U128>:
+    /// non-zero and equal to the primitive.
+    fn c12_nz_from_primitives(s) {
+        let a = s.u8(); let b = s.u16(); let c = s.u32(); let d = s.u64(); let e = s.u128();
+        s.assume(a != 0 && b != 0 && c != 0 && d != 0 && e != 0);
+        let (na, nb, nc, nd, ne) = (NonZeroU8::new(a).unwrap(), NonZeroU16::new(b).unwrap(), NonZeroU32::new(c).unwrap(),
+                                    NonZeroU64::new(d).unwrap(), NonZeroU128::new(e).unwrap());
+        assert!(NonZero::<Limb>::from_u8(na).get().0 == a as u64);
+        assert!(NonZero::<Limb>::from_u16(nb).get().0 == b as u64);
+        assert!(NonZero::<Limb>::from_u32(nc).get().0 == c as u64);
+        assert!(NonZero::<Limb>::from_u64(nd).get().0 == d);
+        assert!(NonZero::<Limb>::from(na).get().0 == a as u64 && NonZero::<Limb>::from(nb).get().0 == b as u64);
+        assert!(NonZero::<Limb>::from(nc).get().0 == c as u64 && NonZero::<Limb>::from(nd).get().0 == d);
+        assert!(u64_of(&NonZero::<U64>::from_u8(na).get()) == a as u64);
+        assert!(u64_of(&NonZero::<U64>::from_u16(nb).get()) == b as u64);
+        assert!(u64_of(&NonZero::<U64>::from_u32(nc).get()) == c as u64);
+        assert!(u64_of(&NonZero::<U64>::from_u64(nd).get()) == d);
+        assert!(u64_of(&NonZero::<U64>::from(nd).get()) == d);
+        assert!(u128_of(&NonZero::<U128>::from_u8(na).get()) == a as u128);
+        assert!(u128_of(&NonZero::<U128>::from_u16(nb).get()) == b as u128);
+        assert!(u128_of(&NonZero::<U128>::from_u32(nc).get()) == c as u128);
+        assert!(u128_of(&NonZero::<U128>::from_u64(nd).get()) == d as u128);
+        assert!(u128_of(&NonZero::<U128>::from_u128(ne).get()) == e);
+        assert!(u128_of(&NonZero::<U128>::from(ne).get()) == e && u128_of(&NonZero::<U128>::from(na).get()) == a as u128);
+        assert!(u128_of(&NonZero::<U128>::from(nb).get()) == b as u128 && u128_of(&NonZero::<U128>::from(nc).get()) == c as u128);
+        cov!(s, e as u64 == 0);
+    }
+    /// NonZero::<U64>::from_u128 cannot truncate a multiple of 2^64 to zero: it panics for every input
+    /// (Uint::from_u128 requires two limbs).
+    #[kani::should_panic]
+    fn c12_nz_u64_from_u128_panics(s) {
+        let e = s.u128();
+        s.assume(e != 0);
+        let _ = NonZero::<U64>::from_u128(NonZeroU128::new(e).unwrap());
+    }
+
+    /// NonZero::from_be_bytes / from_le_bytes (Encoding::Repr) at Limb, U64, U128: some iff the bytes are not all
+    /// zero, value = bytes read in the *stated* order.
+    #[kani::unwind(18)]
+    fn c12_nz_from_bytes(s) {
+        let b8: [u8; 8] = s.bytes();
+        let b16: [u8; 16] = s.bytes();
+        let (be8, le8) = (be_value(&b8) as u64, le_value(&b8) as u64);
+        let (be16, le16) = (be_value(&b16), le_value(&b16));
+        let a: Option<NonZero<Limb>> = NonZero::<Limb>::from_be_bytes(b8).into();
+        let b: Option<NonZero<Limb>> = NonZero::<Limb>::from_le_bytes(b8).into();
+        let c: Option<NonZero<U64>> = NonZero::<U64>::from_be_bytes(b8).into();
+        let d: Option<NonZero<U64>> = NonZero::<U64>::from_le_bytes(b8).into();
+        let e: Option<NonZero<U128>> = NonZero::<U128>::from_be_bytes(b16).into();
+        let f: Option<NonZero<U128>> = NonZero::<U128>::from_le_bytes(b16).into();
+        assert!(a.is_some() == (be8 != 0) && b.is_some() == (be8 != 0) && c.is_some() == (be8 != 0) && d.is_some() == (be8 != 0));
+        assert!(e.is_some() == (be16 != 0) && f.is_some() == (be16 != 0));
+        if be8 != 0 {
+            assert!(a.unwrap().get().0 == be8 && b.unwrap().get().0 == le8);
+            assert!(u64_of(&c.unwrap().get()) == be8 && u64_of(&d.unwrap().get()) == le8);
+        }
+        if be16 != 0 {
+            assert!(u128_of(&e.unwrap().get()) == be16 && u128_of(&f.unwrap().get()) == le16);
+        }
+        cov!(s, be8 != 0 && be8 != le8);
+        cov!(s, be16 == 0);
+    }
+
+    /// NonZero::from_be_byte_array / from_le_byte_array (hybrid-array) at U64: little-endian really is little-endian.
+    #[kani::unwind(10)]
+    fn c12_nz_from_byte_array_u64(s) {
+        let b8: [u8; 8] = s.bytes();
+        let (be, le) = (be_value(&b8) as u64, le_value(&b8) as u64);
+        let a: Option<NonZero<U64>> = NonZero::<U64>::from_be_byte_array(Array::<u8, typenum::U8>::from(b8)).into();
+        let b: Option<NonZero<U64>> = NonZero::<U64>::from_le_byte_array(Array::<u8, typenum::U8>::from(b8)).into();
+        assert!(a.is_some() == (be != 0) && b.is_some() == (be != 0));
+        if be != 0 {
+            assert!(u64_of(&a.unwrap().get()) == be);
+            assert!(u64_of(&b.unwrap().get()) == le);
+        }
+        cov!(s, be != 0 && be != le);
+        cov!(s, be == 0);
+    }
+    /// ... at U128.
+    #[kani::unwind(18)]
+    fn c12_nz_from_byte_array_u128(s) {
+        let b16: [u8; 16] = s.bytes();
+        let (be, le) = (be_value(&b16), le_value(&b16));
+        let a: Option<NonZero<U128>> = NonZero::<U128>::from_be_byte_array(Array::<u8, typenum::U16>::from(b16)).into();
+        let b: Option<NonZero<U128>> = NonZero::<U128>::from_le_byte_array(Array::<u8, typenum::U16>::from(b16)).into();
+        assert!(a.is_some() == (be != 0) && b.is_some() == (be != 0));
+        if be != 0 {
+            assert!(u128_of(&a.unwrap().get()) == be);
+            assert!(u128_of(&b.unwrap().get()) == le);
+        }
+        cov!(s, be != 0 && be != le);
+    }
+
+    /// conditional_select / conditional_assign / conditional_swap / ct_select on NonZero<Limb|U64|U128|I128> and
+    /// Odd<U64|U128> between two valid values: exactly the chosen operand, for both choice values -- hence valid.
+    fn c12_select_between_valid(s) {
+        let (x, y) = (s.u64(), s.u64());
+        let (p, q) = (s.u128(), s.u128());
+        let ch = s.bool();
+        s.assume(x != 0 && y != 0 && p != 0 && q != 0);
+        let c = Choice::from(ch as u8);
+        let (lx, ly) = (NonZero::new(Limb(x)).unwrap(), NonZero::new(Limb(y)).unwrap());
+        let r = NonZero::<Limb>::conditional_select(&lx, &ly, c).get().0;
+        assert!(r == if ch { y } else { x } && r != 0);
+        let (ux, uy) = (NonZero::new(mk64(x)).unwrap(), NonZero::new(mk64(y)).unwrap());
+        let mut t = ux; t.conditional_assign(&uy, c);
+        assert!(u64_of(&t.get()) == if ch { y } else { x });
+        let (mut a, mut b) = (ux, uy);
+        NonZero::<U64>::conditional_swap(&mut a, &mut b, c);
+        assert!(u64_of(&a.get()) == if ch { y } else { x } && u64_of(&b.get()) == if ch { x } else { y });
+        let (wp, wq) = (NonZero::new(mk128(p)).unwrap(), NonZero::new(mk128(q)).unwrap());
+        let r = u128_of(&<NonZero<U128> as ConstantTimeSelect>::ct_select(&wp, &wq, c).get());
+        assert!(r == if ch { q } else { p } && r != 0);
+        let (ip, iq) = (I128::from_i128(p as i128).to_nz().unwrap(), I128::from_i128(q as i128).to_nz().unwrap());
+        let r = i128_of(&NonZero::<I128>::conditional_select(&ip, &iq, c).get());
+        assert!(r == if ch { q as i128 } else { p as i128 } && r != 0);
+        // Odd
+        let (ox, oy) = (Odd::new(mk64(x | 1)).unwrap(), Odd::new(mk64(y | 1)).unwrap());
+        let r = u64_of(&Odd::<U64>::conditional_select(&ox, &oy, c).get());
+        assert!(r == if ch { y | 1 } else { x | 1 } && r & 1 == 1);
+        let (op, oq) = (Odd::new(mk128(p | 1)).unwrap(), Odd::new(mk128(q | 1)).unwrap());
+        let (mut a, mut b) = (op, oq);
+        Odd::<U128>::conditional_swap(&mut a, &mut b, c);
+        assert!(u128_of(&a.get()) == if ch { q | 1 } else { p | 1 } && u128_of(&b.get()) == if ch { p | 1 } else { q | 1 });
+        let mut t = op; t.ct_assign(&oq, c);
+        assert!(u128_of(&t.get()) & 1 == 1 && u128_of(&t.get()) == if ch { q | 1 } else { p | 1 });
+        cov!(s, ch && x != y);
+        cov!(s, !ch && p != q);
+    }
+
+    /// Default and the associated constants: NonZero default = ONE = 1, MAX = all ones; Odd default = 1
+    /// (Uint and BoxedUint). No input.
+    #[kani::unwind(4)]
+    fn c12_defaults_and_constants(s) {
+        assert!(NonZero::<Limb>::default().get().0 == 1);
+        assert!(u64_of(&NonZero::<U64>::default().get()) == 1);
+        assert!(u128_of(&NonZero::<U128>::default().get()) == 1);
+        assert!(i128_of(&NonZero::<I128>::default().get()) == 1);
+        assert!(NonZero::<Limb>::ONE.get().0 == 1 && NonZero::<Limb>::MAX.get().0 == u64::MAX);
+        assert!(u128_of(&NonZero::<U128>::ONE.get()) == 1 && u128_of(&NonZero::<U128>::MAX.get()) == u128::MAX);
+        assert!(i128_of(&NonZero::<I128>::ONE.get()) == 1 && i128_of(&NonZero::<I128>::MAX.get()) == i128::MAX);
+        assert!(u64_of(&Odd::<U64>::default().get()) == 1);
+        assert!(u128_of(&Odd::<U128>::default().get()) == 1);
+        let b = Odd::<BoxedUint>::default();
+        assert!(boxed_u128(b.as_ref()) == 1 && bool::from(b.as_ref().is_odd()));
+    }
+
+    /// NonZero<I64|I128>::abs_sign: magnitude = |x| as an unsigned value (2^63 / 2^127 for MIN), non-zero; sign = x < 0.
+    fn c12_nz_int_abs_sign(s) {
+        let x = s.i64();
+        let y = s.i128();
+        s.assume(x != 0 && y != 0);
+        let (m, sg) = I64::from_i64(x).to_nz().unwrap().abs_sign();
+        assert!(u64_of(&m.get()) == x.unsigned_abs() && u64_of(&m.get()) != 0);
+        assert!(bool::from(sg) == (x < 0));
+        let (m, sg) = I128::from_i128(y).to_nz().unwrap().abs_sign();
+        assert!(u128_of(&m.get()) == y.unsigned_abs() && u128_of(&m.get()) != 0);
+        assert!(bool::from(sg) == (y < 0));
+        cov!(s, x == i64::MIN);
+        cov!(s, y == i128::MIN);
+        cov!(s, y == -1);
+    }
+
+    /// NonZero<BoxedUint>::widen: 64 -> 64, 64 -> 128, 128 -> 128 bits: value preserved (zero-extended), still non-zero.
+    #[kani::unwind(4)]
+    fn c12_nz_boxed_widen(s) {
+        let w: [u64; 2] = s.words();
+        s.assume(w[0] != 0);
+        let one = NonZero::new(BoxedUint::from_words([w[0]])).unwrap();
+        let two = NonZero::new(BoxedUint::from_words([w[0], w[1]])).unwrap();
+        let a = one.widen(64);
+        let b = one.widen(128);
+        let c = two.widen(128);
+        assert!(a.nlimbs() == 1 && a.as_words()[0] == w[0]);
+        assert!(b.nlimbs() == 2 && b.as_words()[0] == w[0] && b.as_words()[1] == 0);
+        assert!(c.nlimbs() == 2 && c.as_words()[0] == w[0] && c.as_words()[1] == w[1]);
+        assert!(bool::from(b.is_nonzero()));
+    }
+    /// widen to a smaller precision panics (documented), it does not truncate a value like 2^64 to zero.
+    #[kani::should_panic]
+    #[kani::unwind(4)]
+    fn c12_nz_boxed_widen_smaller_panics(s) {
+        let w: [u64; 2] = s.words();
+        s.assume(w[0] == 0 && w[1] != 0);
+        let two = NonZero::new(BoxedUint::from_words([w[0], w[1]])).unwrap();
+        let _ = two.widen(64);
+    }
+
+    /// Random producers with a *fallible* stream of 2 words: NonZero<Limb|U128|I64>::try_random and
+    /// Odd<U128>::try_random return a valid value or the RNG error -- never an invalid wrapper.
+    /// (Infallible `random` forms with rejection of leading zero words: c19_nonzero_random_*, c19_odd_random_*.)
+    #[kani::unwind(6)]
+    fn c12_try_random_valid_or_err(s) {
+        let words: [u64; 2] = s.words();
+        let mut r = SymTryRng::<2> { words, pos: 0 };
+        match NonZero::<Limb>::try_random(&mut r) {
+            Ok(v) => assert!(v.get().0 != 0 && (v.get().0 == words[0] || (words[0] == 0 && v.get().0 == words[1]))),
+            Err(_) => assert!(words[0] == 0 && words[1] == 0),
+        }
+        let mut r = SymTryRng::<2> { words, pos: 0 };
+        match NonZero::<U128>::try_random(&mut r) {
+            Ok(v) => assert!(u128_of(&v.get()) != 0 && u128_of(&v.get()) == words[0] as u128 | ((words[1] as u128) << 64)),
+            Err(_) => assert!(words[0] == 0 && words[1] == 0),
+        }
+        let mut r = SymTryRng::<2> { words, pos: 0 };
+        match NonZero::<I64>::try_random(&mut r) {
+            Ok(v) => assert!(i64_of(&v.get()) != 0),
+            Err(_) => assert!(words[0] == 0 && words[1] == 0),
+        }
+        let mut r = SymTryRng::<2> { words, pos: 0 };
+        match Odd::<U128>::try_random(&mut r) {
+            Ok(v) => assert!(u128_of(&v.get()) & 1 == 1),
+            Err(_) => assert!(false),
+        }
+        let mut r = SymTryRng::<1> { words: [words[0]], pos: 0 };
+        assert!(Odd::<U128>::try_random(&mut r).is_err());
+        cov!(s, words[0] == 0 && words[1] == 0);
+        cov!(s, words[0] == 0 && words[1] != 0);
+    }
+
+    /// Odd::<BoxedUint>::random(rng, 0): zero requested bits still yield a one-limb value with bit 0 forced, i.e. 1 --
+    /// a valid Odd (not < 2^0, but the wrapper invariant holds); nothing is drawn.
+    #[kani::unwind(6)]
+    fn c12_odd_boxed_random_zero_bits(s) {
+        let words: [u64; 1] = s.words();
+        let mut rng = SymRng::new(words, 0);
+        let o = Odd::<BoxedUint>::random(&mut rng, 0);
+        assert!(o.as_ref().nlimbs() == 1 && o.as_ref().as_words()[0] == 1 && rng.pos == 0);
+    }
+
+    // ================================================================== Odd
+    /// Odd::new / Uint::to_odd (+ expect) at U64, U128: some iff bit 0 set; value preserved.
+    fn c12_odd_new_uint(s) {
+        let x = s.u64();
+        let y = s.u128();
+        let a: Option<Odd<U64>> = Odd::new(mk64(x)).into();
+        let b: Option<Odd<U128>> = Odd::new(mk128(y)).into();
+        let c = mk64(x).to_odd();
+        let d = mk128(y).to_odd();
+        assert!(a.is_some() == (x & 1 == 1) && bool::from(c.is_some()) == (x & 1 == 1));
+        assert!(b.is_some() == (y & 1 == 1) && bool::from(d.is_some()) == (y & 1 == 1));
+        if x & 1 == 1 { assert!(u64_of(&a.unwrap().get()) == x && u64_of(&c.expect("odd").get()) == x); }
+        if y & 1 == 1 { assert!(u128_of(&b.unwrap().get()) == y && u128_of(d.expect("odd").as_ref()) == y); }
+        cov!(s, x == 0);
+        cov!(s, y == 2);
+        cov!(s, y == u128::MAX);
+        cov!(s, y >> 64 != 0 && y as u64 == 0);
+    }
+    /// ConstCtOption<Odd<_>>::expect on an even value panics.
+    #[kani::should_panic]
+    fn c12_odd_to_odd_expect_even_panics(s) {
+        let y = s.u128();
+        s.assume(y & 1 == 0);
+        let _ = mk128(y).to_odd().expect("documented panic");
+    }
+
+    /// Odd::new(BoxedUint) / BoxedUint::to_odd with 1 and 2 limbs.
+    #[kani::unwind(4)]
+    fn c12_odd_new_boxed(s) {
+        let w: [u64; 2] = s.words();
+        let odd = w[0] & 1 == 1;
+        let a: Option<Odd<BoxedUint>> = Odd::new(BoxedUint::from_words([w[0]])).into();
+        let b: Option<Odd<BoxedUint>> = Odd::new(BoxedUint::from_words([w[0], w[1]])).into();
+        let c: Option<Odd<BoxedUint>> = BoxedUint::from_words([w[0], w[1]]).to_odd().into();
+        assert!(a.is_some() == odd && b.is_some() == odd && c.is_some() == odd);
+        if let Some(a) = a { assert!(a.as_ref().nlimbs() == 1 && a.as_ref().as_words()[0] == w[0]); }
+        if let Some(b) = b { assert!(b.as_ref().nlimbs() == 2 && boxed_u128(b.as_ref()) == w[0] as u128 | ((w[1] as u128) << 64)); }
+        if let Some(c) = c { assert!(c.as_ref().nlimbs() == 2 && boxed_u128(c.as_ref()) == w[0] as u128 | ((w[1] as u128) << 64)); }
+        cov!(s, !odd && w[1] & 1 == 1);
+    }
+
+    /// Odd::as_nz_ref / AsRef<NonZero<T>>: the reinterpreted NonZero has the same, non-zero value (U64, U128, BoxedUint).
+    #[kani::unwind(4)]
+    fn c12_odd_as_nz_ref(s) {
+        let x = s.u64();
+        let y = s.u128();
+        s.assume(x & 1 == 1 && y & 1 == 1);
+        let a = Odd::new(mk64(x)).unwrap();
+        let b = Odd::new(mk128(y)).unwrap();
+        let c = Odd::new(BoxedUint::from_words([y as u64, (y >> 64) as u64])).unwrap();
+        assert!(u64_of(a.as_nz_ref().as_ref()) == x && x != 0);
+        assert!(u128_of(b.as_nz_ref().as_ref()) == y);
+        let r: &NonZero<U128> = AsRef::<NonZero<U128>>::as_ref(&b);
+        assert!(u128_of(&r.get()) == y && !bool::from(r.is_zero()));
+        let nz: &NonZero<BoxedUint> = c.as_nz_ref();
+        assert!(boxed_u128(nz) == y && bool::from(nz.is_nonzero()) && nz.nlimbs() == 2);
+    }
+
+    /// Odd::<U64>::from_be_hex on well-formed hex (both letter cases) of an odd value: the big-endian value.
+    #[kani::unwind(18)]
+    fn c12_odd_from_be_hex_u64(s) {
+        let h: [u8; 16] = s.bytes();
+        s.assume(all_hex(&h));
+        let bytes: [u8; 8] = hex_bytes::<8, 16>(&h);
+        let v = be_value(&bytes) as u64;
+        s.assume(v & 1 == 1);
+        let o = Odd::<U64>::from_be_hex(unsafe { core::str::from_utf8_unchecked(&h) });
+        assert!(u64_of(o.as_ref()) == v);
+        cov!(s, bytes[0] & 1 == 0 && h[3] == b'F' && h[4] == b'f');
+    }
+    /// Odd::<U64>::from_le_hex: the *little-endian* value (first byte least significant); odd iff the first byte is odd.
+    #[kani::unwind(18)]
+    fn c12_odd_from_le_hex_u64(s) {
+        let h: [u8; 16] = s.bytes();
+        s.assume(all_hex(&h));
+        let bytes: [u8; 8] = hex_bytes::<8, 16>(&h);
+        let v = le_value(&bytes) as u64;
+        s.assume(v & 1 == 1);
+        let o = Odd::<U64>::from_le_hex(unsafe { core::str::from_utf8_unchecked(&h) });
+        assert!(u64_of(o.as_ref()) == v);
+        cov!(s, bytes[7] & 1 == 0);
+        cov!(s, v != be_value(&bytes) as u64);
+    }
+    /// from_be_hex of an even value panics ("number must be odd").
+    #[kani::should_panic]
+    #[kani::unwind(18)]
+    fn c12_odd_from_be_hex_even_panics_u64(s) {
+        let h: [u8; 16] = s.bytes();
+        s.assume(all_hex(&h));
+        let bytes: [u8; 8] = hex_bytes::<8, 16>(&h);
+        s.assume(bytes[7] & 1 == 0);
+        let _ = Odd::<U64>::from_be_hex(unsafe { core::str::from_utf8_unchecked(&h) });
+    }
+    /// from_le_hex of a value whose little-endian reading is even (first byte even, last byte odd) panics.
+    #[kani::should_panic]
+    #[kani::unwind(18)]
+    fn c12_odd_from_le_hex_even_panics_u64(s) {
+        let h: [u8; 16] = s.bytes();
+        s.assume(all_hex(&h));
+        let bytes: [u8; 8] = hex_bytes::<8, 16>(&h);
+        s.assume(bytes[0] & 1 == 0 && bytes[7] & 1 == 1);
+        let _ = Odd::<U64>::from_le_hex(unsafe { core::str::from_utf8_unchecked(&h) });
+    }
+    /// U128 (two limbs: limb order matters as well as byte order): be and le hex of odd values.
+    #[kani::unwind(34)]
+    fn c12_odd_from_hex_u128(s) {
+        let h: [u8; 32] = s.bytes();
+        s.assume(all_hex(&h));
+        let bytes: [u8; 16] = hex_bytes::<16, 32>(&h);
+        let be = be_value(&bytes);
+        let le = le_value(&bytes);
+        let st = unsafe { core::str::from_utf8_unchecked(&h) };
+        if s.bool() {
+            s.assume(be & 1 == 1);
+            assert!(u128_of(Odd::<U128>::from_be_hex(st).as_ref()) == be);
+        } else {
+            s.assume(le & 1 == 1);
+            assert!(u128_of(Odd::<U128>::from_le_hex(st).as_ref()) == le);
+        }
+        cov!(s, be & 1 == 1 && le & 1 == 0);
+        cov!(s, le & 1 == 1 && be & 1 == 0);
+    }
+
+    /// From<Odd<Uint>> / From<&Odd<Uint>> for Odd<BoxedUint> (U64, U128): same value, same number of limbs, odd.
+    #[kani::unwind(4)]
+    fn c12_odd_uint_to_boxed(s) {
+        let x = s.u64();
+        let y = s.u128();
+        s.assume(x & 1 == 1 && y & 1 == 1);
+        let a: Odd<BoxedUint> = Odd::new(mk64(x)).unwrap().into();
+        let o = Odd::new(mk128(y)).unwrap();
+        let b: Odd<BoxedUint> = (&o).into();
+        let c: Odd<BoxedUint> = o.into();
+        assert!(a.as_ref().nlimbs() == 1 && a.as_ref().as_words()[0] == x);
+        assert!(b.as_ref().nlimbs() == 2 && boxed_u128(b.as_ref()) == y && bool::from(b.as_ref().is_odd()));
+        assert!(c.as_ref().nlimbs() == 2 && boxed_u128(c.as_ref()) == y);
+    }
+
+    /// Modulus accessors hand back the odd value they were given: ConstMontyParams::MODULUS (impl_modulus!, be hex),
+    /// MontyParams::from_const_params(..).modulus(), at two literal moduli (U64: 2^64-2^32+1, U128: 2^66-15).
+    #[kani::unwind(4)]
+    fn c12_modulus_accessors_literal(s) {
+        let m64 = <C12Mod64 as ConstMontyParams<1>>::MODULUS;
+        let m128 = <C12Mod128 as ConstMontyParams<2>>::MODULUS;
+        assert!(u64_of(m64.as_ref()) == 0xffffffff00000001);
+        assert!(u128_of(m128.as_ref()) == (1u128 << 66) - 15);
+        let p = MontyParams::<1>::from_const_params::<C12Mod64>();
+        assert!(u64_of(p.modulus().as_ref()) == 0xffffffff00000001);
+        let p = MontyParams::<2>::from_const_params::<C12Mod128>();
+        assert!(u128_of(p.modulus().as_ref()) == (1u128 << 66) - 15 && bool::from(p.modulus().as_ref().is_odd()));
+    }
 }
